@@ -3,7 +3,7 @@ open Igris.Proto Igris.C10
 
 inductive St where
   | idle
-  | pool (p : Pool)
+  | pool (p : Pool) (m : Links) (head : Nat)   -- list model and the `next`-pointer model side by side
   | ipool (p : IPool)
   | sop (p : SOP)
   | heap (cfg : Cfg) (h : Heap) (slots : List (Nat × Nat))   -- slot ↦ payload offset
@@ -28,6 +28,11 @@ def insertSorted (x : Nat × Nat) : List (Nat × Nat) → List (Nat × Nat)
   | [] => [x]
   | y :: r => if x.1 ≤ y.1 then x :: y :: r else y :: insertSorted x r
 
+/-- `pool_avail` computed by walking the `next` pointers; must agree with the list model -/
+def availBoth (p : Pool) (m : Links) (head : Nat) : String :=
+  let a := slistSize m head (p.free.length + 2)
+  if a = p.avail then toString a else s!"{a} MISMATCH {p.avail}"
+
 def heapLine (ret : String) (h : Heap) (slots : List (Nat × Nat)) : String :=
   let fl := String.join (h.flp.map fun c => s!"({c.1},{c.2})")
   let sorted := slots.foldl (fun acc x => insertSorted x acc) []
@@ -43,7 +48,9 @@ def stepLine (st : St) (line : String) : St × String :=
     match e.toNat?, n.toNat? with
     | some e, some n =>
       let p := Pool.init.engage (n * e) e
-      (.pool p, s!"ok {p.avail}")
+      let head := n * e + 8
+      let m := engageLoopP e (n * e) head (n * e + 1) 0 (slistInit (fun _ => 0) head)
+      (.pool p m head, s!"ok {availBoth p m head}")
     | _, _ => bad
   | ["reset", "ipool", e, n] =>
     match e.toNat?, n.toNat? with
@@ -64,16 +71,23 @@ def stepLine (st : St) (line : String) : St × String :=
     | none => bad
   | ws =>
     match st, ws with
-    | .pool p, ["a"] =>
+    | .pool p m head, ["a"] =>
       let (r, p') := p.alloc
-      (.pool p', s!"{optS r} {p'.avail}")
-    | .pool p, ["f", c] =>
+      let (r2, m') := poolAllocP m head
+      (.pool p' m' head, s!"{optS r}{if r2 != r then " MISMATCH" else ""} {availBoth p' m' head}")
+    | .pool p m head, ["f", c] =>
       match c.toNat? with
-      | some c => let p' := (p.release c).1; (.pool p', s!"{p'.avail}")
+      | some c =>
+        let p' := (p.release c).1
+        let m' := slistAdd m c head
+        (.pool p' m' head, s!"{availBoth p' m' head}")
       | none => bad
-    | .pool p, ["in", c] =>
+    | .pool p m head, ["in", c] =>
       match c.toNat? with
-      | some c => (st, if p.inFreelist c then "1" else "0")
+      | some c =>
+        let a := p.inFreelist c
+        let b := slistIn m head c (p.free.length + 2)
+        (st, (if a then "1" else "0") ++ (if a != b then " MISMATCH" else ""))
       | none => bad
     | .ipool p, ["g"] =>
       let (r, p') := p.get
